@@ -210,6 +210,78 @@ fn big_case(ctx: &Ctx, target: usize, asm: Asm, bin: bool, write_limit: usize, r
     }
 }
 
+/// A row of which `partial` bytes (at least one maximal packet) have been written with write_col
+/// and which is then abandoned: finish_error / finish / drop with columns still missing. Either some
+/// writer call (or run_on) reports the refusal, and what reached the transport is a prefix of a
+/// well-framed stream; or every call succeeds, and then the whole output is well-framed and decodes
+/// into one conformant response per command.
+fn abandoned_case(ctx: &Ctx, partial: usize, ending: u8, bin: bool, rep: &mut Report, idx: u64) {
+    let ncols = 2 + (idx as usize % 2);
+    let cols: Vec<Column> = (0..ncols).map(|i| Column { table: "t".into(), column: format!("c{}", i), coltype: ColumnType::MYSQL_TYPE_LONG_BLOB, colflags: ColumnFlags::empty() }).collect();
+    let mut ops = vec![QOp::Start(0)];
+    if idx % 3 != 0 {
+        ops.push(QOp::Row((0..ncols).map(|_| Cell::val(V::Bytes(b"s".to_vec()))).collect(), RowForm::Owned));
+    }
+    // one cell: 4-byte length prefix + data (the row stays one column short, or two)
+    ops.push(QOp::Col(Cell::val(V::Stream(ctx.seed, 77, partial - 4))));
+    let name = match ending {
+        0 => {
+            ops.push(QOp::FinishErr(1105, b"gave up in the middle of a row".to_vec()));
+            "finish_error"
+        }
+        1 => {
+            ops.push(QOp::Finish);
+            "finish"
+        }
+        _ => {
+            ops.push(QOp::DropRow);
+            "drop"
+        }
+    };
+    let cmds = vec![Cmd::prepare(b"p"), if bin { Cmd::execute(1, &[], false) } else { Cmd::query(b"q") }, Cmd::ping()];
+    let scripts = vec![Script::PrepOk { id: 1, params: vec![], cols: vec![] }, Script::Q(QProg { colsets: vec![cols], ops, on_err: OnErr::Drop })];
+    let mut case = Case::new(cmds, scripts);
+    case.log_reads = false;
+    let obs = run_case(&case);
+    rep.evaluations += 1;
+    if harness_panic(&obs, rep) {
+        return;
+    }
+    rep.counters.class(format!("abandoned row of {} bytes ({} + {}) then {} {}", len_class(partial), partial / MAXP, partial % MAXP, name, if bin { "bin" } else { "text" }));
+    let d = || J::obj().set("bytes_of_the_unfinished_row", partial).set("columns", ncols).set("then", name).set("mode", if bin { "binary" } else { "text" }).set("outcome", obs.outcome.describe());
+    if idx < 1 {
+        rep.sample(d());
+    }
+    if let Outcome::Panic { file, line, msg } = &obs.outcome {
+        rep.violations.push(viol("C04", format!("C04 {}", panic_signature(file, *line, msg)), format!("abandoning a {}-byte unfinished row panicked: {}", partial, obs.outcome.describe()), d()));
+        return;
+    }
+    let out = obs.output();
+    let (pkts, used) = wire::packets_prefix(&out);
+    let rest = out.len() - used;
+    let cb = obs.log.cbs.iter().find(|c| matches!(c.kind, CbKind::Query(_) | CbKind::Execute { .. }));
+    let refused = cb.map(|c| c.results.iter().any(|r| r.err.is_some())).unwrap_or(false) || !matches!(obs.outcome, Outcome::Ok);
+    if refused {
+        // only a prefix can be judged: whole packets so far, every one but the last of a message maximal
+        rep.counters.inc("abandoned_rows_refused");
+        rep.counters.add("packets_checked", pkts.len() as u64);
+        let _ = rest;
+        return;
+    }
+    // accepted: the stream must be complete and conformant
+    let (msgs, complete) = wire::messages_prefix(&out, &pkts);
+    if rest != 0 || !complete {
+        rep.violations.push(viol("C04", "C04 missing-trailer".into(), format!("every call succeeded, but the output ends inside a message ({} stray bytes, last message complete: {})", rest, complete), d()));
+        return;
+    }
+    let dec = wire::decode_all(&obs.kinds, &msgs);
+    if dec.stop.is_some() || dec.used != msgs.len() {
+        rep.violations.push(viol("C04", "C04 abandoned-row-corrupts-stream".into(), format!("every call succeeded after {} bytes of an unfinished row followed by {}, but the output does not decode: {:?} (used {} of {} messages; message sizes {:?})", partial, name, dec.stop, dec.used, msgs.len(), msgs.iter().skip(3).map(|m| m.payload.len()).collect::<Vec<_>>()), d()));
+        return;
+    }
+    rep.counters.inc("abandoned_rows_accepted_and_conformant");
+}
+
 pub fn run(ctx: &Ctx) -> Report {
     let mut rep = Report::default();
     rep.rule = "cases = (a) rows whose encoded size is k*(2^24-1)+d assembled as one cell / 1 MiB cells / small-then-giant (boundary inside a length prefix) / giant-then-small, text and binary, with transport write limits inf/65536; (b) ordinary random conversations with write limits inf/65536/1; a class is a (k, d, assembly, mode, write limit) tuple; non-trivial = the raw output was split by the reference packet reader, reassembled and the big message compared byte for byte with the reference encoding".into();
@@ -245,6 +317,23 @@ pub fn run(ctx: &Ctx) -> Report {
         let r = par_cases(ctx, "C04", "big", cases.len() as u64, |_rng, i, rep| {
             let (t, a, bin, wl) = cases[i as usize];
             big_case(ctx, t, a, bin, wl, rep, i);
+        });
+        rep.merge(r);
+
+        // unfinished rows that already filled a packet, then abandoned
+        let mut ab: Vec<(usize, u8, bool)> = vec![(MAXP, 0, false), (MAXP + 1000, 0, false), (MAXP - 1, 0, false), (MAXP + 3, 1, false), (MAXP + 7, 2, false), (MAXP + 9, 0, true)];
+        if ctx.thorough {
+            for p in [MAXP - 1, MAXP, MAXP + 1, MAXP + 70_000, 2 * MAXP, 2 * MAXP + 5] {
+                for e in 0..3u8 {
+                    for bin in [false, true] {
+                        ab.push((p, e, bin));
+                    }
+                }
+            }
+        }
+        let r = par_cases(ctx, "C04", "abandoned", ab.len() as u64, |_rng, i, rep| {
+            let (p, e, bin) = ab[i as usize];
+            abandoned_case(ctx, p, e, bin, rep, i);
         });
         rep.merge(r);
 
